@@ -156,7 +156,18 @@ func Start(opt Options) (*Sim, error) {
 	if err := s.Master.Start(); err != nil {
 		return nil, err
 	}
-	if err := s.StartCore(); err != nil {
+	err = s.StartCore()
+	for attempt := 0; err != nil && attempt < 2; attempt++ {
+		// a core that does not come up is a harness-level problem (loaded machine, port
+		// stolen between probe and bind): dump, kill and try a fresh process
+		fmt.Fprintf(os.Stderr, "coresim: core start attempt failed (%v), goroutines:\n%s\nretrying\n", err, s.DumpGoroutines())
+		s.KillCore()
+		s.mu.Lock()
+		s.cmd = nil
+		s.mu.Unlock()
+		err = s.StartCore()
+	}
+	if err != nil {
 		tail := ""
 		if b, rerr := os.ReadFile(s.StderrPath()); rerr == nil {
 			if len(b) > 3000 {
@@ -243,7 +254,7 @@ func (s *Sim) StartCore() error {
 		close(done)
 	}()
 	// wait for gRPC
-	deadline := time.Now().Add(240 * time.Second) // generous: a loaded machine is not a verdict
+	deadline := time.Now().Add(120 * time.Second) // generous: a loaded machine is not a verdict
 	var conn *grpc.ClientConn
 	for time.Now().Before(deadline) {
 		select {
@@ -428,7 +439,7 @@ func (s *Sim) Close() {
 	if s.Consul != nil {
 		s.Consul.Stop()
 	}
-	if !s.Opt.KeepLogs && s.Opt.Dir == "" {
+	if !s.Opt.KeepLogs && s.Opt.Dir == "" && os.Getenv("VERIF_KEEP") == "" {
 		os.RemoveAll(s.Dir)
 	}
 }
